@@ -12,7 +12,7 @@ size limits, wired to an independent peer in memory (harness/workers/sess_real.p
 
 Self-test (tools_selftest_sess.py: single-edit mutations of a scratch copy of /repo/src, `VERIF_REPO=<copy> ./check C10
 --tier quick`; every mutation exit 1 with a concrete replay, the harmless rewrite exit 0; n8 / n9 also change the send()
-table generated from the source, so `fallback_covers_partial` no longer builds):
+table generated from the source, so `fallback_covers` no longer builds):
   S  seeded/c10 (`if msg.receive_progress:` -> `if msg.receive_progress is not None:`)   quick exit 1, thorough exit 1
       — missed while the INVOCATION vocabulary knew only "asked / not asked"; since the receive_progress detail is tri-state
       (absent / true / explicitly false: all Invocation.parse accepts; any other wire value is its ProtocolError) and every
@@ -74,31 +74,37 @@ MANIFEST_ENTRY = {
             "a request id never outnumber the endpoint calls made for it, and an id still in _invocations has one reply less "
             "(accounting relation carried through every step of the model: a terminal reply is sent only by the success/error "
             "closure, which first removes the id; the id gets there only through an accepted INVOCATION); "
-            "reply_sent_exactly_once — when the closure runs with the transport up, a covered send() plan (accepted, or "
-            "refused as unserializable / oversize with the fallback ERROR accepted) and an outcome an ERROR can be built from, "
-            "exactly one terminal reply goes out and the id leaves _invocations; reply_content (YIELD carries the return "
-            "value, CallResult unpacked; ERROR the exception's URI/args/kwargs); endpoint_args_exact (the endpoint is called "
+            "reply_sent_exactly_once — when the closure runs with the transport up and a covered send() plan (accepted, or "
+            "refused as unserializable / oversize with the fallback ERROR accepted), for EVERY outcome of the endpoint — also an "
+            "exception no ERROR can be built from, answered wamp.error.invalid_payload since the repair — exactly one terminal "
+            "reply goes out and the id leaves _invocations; reply_content (YIELD carries the return value, CallResult "
+            "unpacked; ERROR the exception's URI/args/kwargs, or invalid_payload without them); endpoint_args_exact (the endpoint is called "
             "first thing with exactly the caller's args/kwargs plus CallDetails under its own details_arg iff registered "
             "with one, progress callable iff the receive_progress detail is `true` — tri-state: absent and an explicit `false` "
             "both mean no); progress_only_if_asked (same tri-state), progress_before_terminal_in_step; "
             "duplicate_invocation_is_violation, unknown_registration_is_violation (ProtocolError, nothing changes); "
             "interrupt_yields_error, interrupt_ignored. The send() classification of the four transports is REGENERATED from "
-            "the source on every run (translate/sendtab.py) and measured on the real transports: fallback_covers_partial "
-            "(WebSocket both frameworks, asyncio RawSocket) proved, fallback_covers_fails_rsTwisted proved. OneTerminalReply "
-            "(exactly one once the outcome is known, the loop idle, the transport up) is stated in full and refuted by decide "
-            "on three histories (send() raising another class; an oversize result whose fallback ERROR is refused as well; an "
-            "exception no ERROR can be built from); ProgressBeforeTerminal refuted by U2. Tie: 709 (quick) scripts of endpoint "
+            "the source on every run (translate/sendtab.py) and measured on the real transports: fallback_covers (all four "
+            "transports, since the Twisted RawSocket repair) and fallback_plan_covered (so an unserializable / oversize result "
+            "meets a covered plan on every real transport) proved. OneTerminalReply (exactly one once the outcome is known, "
+            "the loop idle, the transport up, for ANY transport behaviour) is stated in full and refuted by decide on two "
+            "histories no real transport produces any more (send() raising another class; the fallback ERROR refused as "
+            "well); ProgressBeforeTerminal refuted by U2. Tie: 709 (quick) scripts of endpoint "
             "behaviours x 1-3 concurrent invocations x INTERRUPT before/between/after x scripted send() plans on a mock "
             "transport, both frameworks, observation-exact; and the four real transports x json/msgpack/cbor x negotiated "
             "limits 2^10..2^12 (at 2^9 not even HELLO fits) with real unserializable (object, set, lone surrogate) and "
             "oversize results, messages per request id decoded by an independent peer, equal to the model's.",
     "note": "Trusted: Lean kernel; the hand-written model and trace Spec; txaio semantics as modelled; serializers and size "
-            "checks exercised, not modelled. Known findings (known_findings.d/C10.jsonl): U2 (late progress), "
-            "error-path:encode-raises:no-reply, and two found here on the real transports: an oversize result gets NO reply "
-            "on any transport because the fallback ERROR repeats the result's repr and is refused too; on the Twisted "
-            "RawSocket an unserializable result gets no reply because send() lets the serializer's own exception through. "
-            "Ledger F14 (asyncio RawSocket ValueError) is repaired in /repo 11645fb6: the generated and the measured table "
-            "say PayloadExceededError; re-introducing it breaks fallback_covers_partial and the measured table.",
+            "checks exercised, not modelled. Open finding (known_findings.d/C10.jsonl): U2 (late progress: an endpoint that "
+            "keeps details.progress and calls it after returning; left open: _invocations is filled only after the endpoint "
+            "was called, so it cannot tell a late call from a synchronous one, and what a late call should do — raise, which "
+            "class, or be ignored — is a design decision). Repaired in /repo (fixed entries, reported again if they return): "
+            "error-path:encode-raises:no-reply (ERROR invalid_payload when _message_from_exception raises); an oversize "
+            "result got NO reply on any transport because the fallback ERROR repeated the result (it no longer does; part B "
+            "now expects the fallback ERROR on the wire); on the Twisted RawSocket an unserializable result got no reply "
+            "because send() let the serializer's own exception through (it now raises SerializationError; the generated and "
+            "the measured table agree on all four rows). Ledger F14 (asyncio RawSocket ValueError) repaired in /repo "
+            "11645fb6; re-introducing any of these breaks fallback_covers and / or the measured table.",
 }
 
 C10_VIOLS = ("reply-unsolicited", "no-reply", "late-progress", "progress-unasked", "endpoint-args",
@@ -151,7 +157,8 @@ def classify(script, i, v, fw):
     if clause in ("endpoint-args", "progress-unasked") and rpf in (["f"], ["0"]):
         # the caller did not ask (detail explicitly false / absent), the endpoint got a progress callable / used it
         return "%s:receive_progress-%s" % (clause, "false" if rpf == ["f"] else "absent")
-    if clause == "no-reply" and faults[:2] == ["big", "big"]:
+    if clause == "no-reply" and faults[:1] == ["big"] and (faults[:2] == ["big", "big"] or "/" in fw):
+        # on a real transport the second refusal can only be the fallback ERROR being oversize itself
         return "no-reply:oversize-result:fallback-error-repeats-the-result-and-exceeds-the-limit-too"
     if clause == "no-reply" and faults[:1] == ["other"] and "rs" in fw and "twisted" in fw:
         return "no-reply:unserializable-result:twisted-rawsocket-send-raises-the-serializer's-own-exception"
@@ -366,7 +373,7 @@ def real_cases(rng, kind, lim, table, quick=True):
         if c == "ser":
             return "ser.ok"            # the fallback names the value by its repr: small and serializable
         if c == "big":
-            return "big.big"           # the fallback ERROR carries the repr of the oversize value: oversize again
+            return "big.ok"            # the fallback ERROR names the procedure and the limit, not the value: it fits
         return "other"
 
     def model_ret(spec):
@@ -498,7 +505,7 @@ CORPUS = [
     # U2: the endpoint keeps details.progress and calls it after it returned
     (["open", "pump", "m.welcome,7", "reg,1,4,oda=0,ok", "m.registered,1,70", "pump", "m.invocation,5,70,a1,k1=2,1;rv9~p3", "pump",
       "lateprog,5,8", "pump"], True),
-    # the ERROR cannot be built from the exception: nothing is sent
+    # the ERROR cannot be built from the exception (repaired: ERROR invalid_payload goes out; kept as regression input)
     (["open", "pump", "m.welcome,7", "reg,1,4,n,ok", "m.registered,1,70", "pump", "m.invocation,5,70,n,n,0;xu", "pump"], True),
     # three concurrent invocations, one interrupted, one failing with the fallback, one plain
     (["open", "pump", "m.welcome,7", "reg,1,4,oda=3,ok", "m.registered,1,70", "pump", "m.invocation,5,70,a1,n,0;rp", "m.invocation,6,70,n,k1=2,1;rv2~p1",
